@@ -46,3 +46,17 @@ SWEEP = (10, 150)
 
 from props._simprop import install  # noqa: E402
 install(globals(), ID, 4000, 60000)
+
+_run_c01 = run
+
+
+def run(tier, seed):
+    """C01 also carries the primitive-conformance self-test of the SIM kernel (a disagreement is a harness error)."""
+    from vlib import common
+    from vlib.shards import run_jobs
+    acc = _run_c01(tier, seed)
+    n = 300 if tier == "quick" else 4000
+    a2, _ = run_jobs([{"module": "selftest.conformance", "func": "shard", "kwargs": {"seed": common.derive_seed(seed, "conf", i), "n": n // 4}}
+                      for i in range(4)], tag="conformance")
+    acc.count("conformance_sequences", a2.evaluations)
+    return acc
